@@ -124,12 +124,14 @@ Definition strip_default (s : str) : option str :=   (* text after an optional "
 Fixpoint take_while (p : N -> bool) (s : str) : str :=
   match s with [] => [] | c :: t => if p c then c :: take_while p t else [] end.
 
-Definition pms_use_dep (defaults : bool) (x : str) : bool :=
-  let pfx_body := match x with
-                  | c :: t => if c =? 33 then (1, t) else if c =? 45 then (2, t) else (0, x)
-                  | [] => (0, x)
-                  end in
-  let body := snd pfx_body in
+(* prefix mark: 0 none, 1 "!", 2 "-" ; and the text after it *)
+Definition use_dep_split (x : str) : N * str :=
+  match x with
+  | c :: t => if c =? 33 then (1, t) else if c =? 45 then (2, t) else (0, x)
+  | [] => (0, x)
+  end.
+(* flag name, optional default, optional "=" / "?" *)
+Definition use_dep_body (defaults : bool) (pfx : N) (body : str) : bool :=
   let name := take_while s_use_char body in
   let rest := drop_while s_use_char body in
   pms_use_flag name &&
@@ -140,10 +142,12 @@ Definition pms_use_dep (defaults : bool) (x : str) : bool :=
                end in
    match tail with
    | None => false
-   | Some [] => negb (fst pfx_body =? 1)                       (* flag, -flag *)
-   | Some [c] => ((c =? 61) || (c =? 63)) && negb (fst pfx_body =? 2)   (* flag= flag? !flag= !flag? *)
+   | Some [] => negb (pfx =? 1)                                  (* flag, -flag *)
+   | Some [c] => ((c =? 61) || (c =? 63)) && negb (pfx =? 2)     (* flag= flag? !flag= !flag? *)
    | Some _ => false
    end).
+Definition pms_use_dep (defaults : bool) (x : str) : bool :=
+  use_dep_body defaults (fst (use_dep_split x)) (snd (use_dep_split x)).
 
 (* ---- 8.3.3 slot specification (text after the ":") *)
 Definition pms_slot_spec (f : features) (s : str) : bool :=
